@@ -3,7 +3,7 @@
 # format changes, because a finding is re-executed and compared with its recorded observation).
 cd "$(dirname "$0")/.."
 export PYTHONHASHSEED=0
-/venv/bin/python tools/gen_findings.py 4 MC_SetC MC_PushS MC_FrameS MC_FlowS MC_LifeS MC_LifeC MC_CloseS MC_MiscC MC_MiscS MC_HdrOutC MC_HdrInS MC_PushC MC_LenS MC_UpgS MC_UpgC MC_BigC MC_BigS MC_IdsC | grep -c "^finding"
+/venv/bin/python tools/gen_findings.py 4 MC_SetC MC_PushS MC_FrameS MC_FlowS MC_LifeS MC_LifeC MC_CloseS MC_MiscC MC_MiscS MC_HdrOutC MC_HdrInS MC_PushC MC_LenS MC_UpgS MC_UpgC MC_BigC MC_BigS MC_IdsC MC_RawS | grep -c "^finding"
 /venv/bin/python tools/gen_findings.py 5 MC_SetS | grep -c "^finding"
 /venv/bin/python tools/gen_findings.py 6 MC_StallS | grep -c "^finding"
 /venv/bin/python tools/manual_findings.py | tail -1
